@@ -1,4 +1,5 @@
 import Driver.SpecDrv
+import Driver.FlwDrv
 /-
   Line-protocol driver: reads cases from stdin, answers every line with one line.
 
@@ -11,6 +12,7 @@ open Drv
 inductive MSt where
   | none
   | spec (s : SpecDrv.St)
+  | flw (s : FlwDrv.St)
 
 def stepLine (st : MSt) (line : String) : MSt × String :=
   let toks := (line.trimAscii.toString.splitOn " ").filter (· ≠ "")
@@ -19,12 +21,14 @@ def stepLine (st : MSt) (line : String) : MSt × String :=
     let hdr := "CASE " ++ " ".intercalate rest
     match model with
     | "spec" => (.spec {}, hdr)
+    | "flw" => (.flw {}, hdr)
     | _ => (.none, hdr ++ " unknown-model")
   | ["END"] => (.none, "END")
   | _ =>
     match st with
     | .none => (st, "no-case")
     | .spec s => let (s', out) := SpecDrv.step s toks; (.spec s', out)
+    | .flw s => let (s', out) := FlwDrv.step s toks; (.flw s', out)
 
 partial def loop (hin : IO.FS.Stream) (hout : IO.FS.Stream) (st : MSt) : IO Unit := do
   let line ← hin.getLine
